@@ -24,6 +24,8 @@ type c07W struct {
 	Graph       *model.GraphData `json:"graph,omitempty"` // shape == explicit
 	Prog        []string         `json:"prog"`            // protojson statements
 	CancelAfter int              `json:"cancel_after"`    // -1: never
+	DeadlineUs  int              `json:"deadline_us,omitempty"` // > 0 with cancel_after: the context expires by deadline instead of being cancelled
+	StopReading bool             `json:"stop_reading,omitempty"`
 	WriteAfter  int              `json:"write_after,omitempty"` // > 0: the reading client deletes an absent vertex after that many rows
 	Confirmed   bool             `json:"confirmed_at_production_constants,omitempty"`
 }
@@ -190,6 +192,9 @@ func genC07(r *Rng, tier string) *c07W {
 	w.Prog = gen.StmtsJSON(prog)
 	if r.Chance(30) {
 		w.CancelAfter = r.Intn(6)
+		if r.Chance(35) {
+			w.DeadlineUs = []int{200, 5000, 2000000}[r.Intn(3)]
+		}
 	} else if r.Chance(15) {
 		w.WriteAfter = 1 + r.Intn(4)
 	}
@@ -280,6 +285,9 @@ func execC07(w *c07W, x *Exec) *Outcome {
 	if w.WriteAfter > 0 {
 		o.Count("fault:reader_writes_mid_stream", 1)
 	}
+	if w.DeadlineUs > 0 {
+		o.Count("fault:request_deadline_expires_mid_stream", 1)
+	}
 	if simrt.Policy(w.Run.Policy) == simrt.PolStarve {
 		o.Count("fault:slow_stage_or_consumer", 1)
 	}
@@ -336,10 +344,10 @@ func c07Once(w *c07W, x *Exec, stmts []*gripql.GraphStatement, rc RunCfg, scale 
 	if cfg.MaxSteps == 0 {
 		cfg.MaxSteps = 3000000
 	}
-	tr := runTraversal(x, cfg, gd, stmts, travOpts{CancelAfter: w.CancelAfter, WriteAfter: w.WriteAfter})
+	tr := runTraversal(x, cfg, gd, stmts, travOpts{CancelAfter: w.CancelAfter, WriteAfter: w.WriteAfter, DeadlineUs: w.DeadlineUs, StopReading: w.StopReading})
 	if tr.Bubble.Verdict == simrt.Budget && simrt.Policy(rc.Policy) != simrt.PolRR {
 		cfg.Policy = simrt.PolRR
-		tr = runTraversal(x, cfg, gd, stmts, travOpts{CancelAfter: w.CancelAfter, WriteAfter: w.WriteAfter})
+		tr = runTraversal(x, cfg, gd, stmts, travOpts{CancelAfter: w.CancelAfter, WriteAfter: w.WriteAfter, DeadlineUs: w.DeadlineUs, StopReading: w.StopReading})
 	}
 	if tr.Bubble.Infra != "" {
 		return &Violation{Signature: "infra:" + tr.Bubble.Infra}, tr
@@ -367,6 +375,9 @@ func c07Once(w *c07W, x *Exec, stmts []*gripql.GraphStatement, rc RunCfg, scale 
 		}
 		if w.WriteAfter > 0 {
 			sig += "+write-mid-stream"
+		}
+		if w.DeadlineUs > 0 {
+			sig += "+deadline"
 		}
 		return &Violation{
 			Class: cls, Signature: sig,
